@@ -14,7 +14,7 @@ from .core import strip, walk
 HERE = os.path.dirname(os.path.abspath(__file__))
 TABLE = os.path.join(HERE, 'rules', 'boundaries.json')
 
-_STD_KEEP = ('min', 'max', 'len', 'remaining', 'capacity', 'saturating_sub', 'overflowing_add', 'wrapping_add', 'checked_sub', 'checked_add')
+_STD_KEEP = ('min', 'max', 'len', 'remaining', 'capacity', 'saturating_sub', 'overflowing_add', 'wrapping_add', 'checked_sub', 'checked_add', 'unwrap_or', 'map_or')
 
 
 def operand_atoms(e, depth=0):
